@@ -22,33 +22,39 @@ Others(t, ch, full) ==      \* values of the argument tuple outside the swept ch
   ELSE LET V(c) == IF c = ch THEN {0} ELSE IF full THEN 0..ChMax(t, c) ELSE Bound8 IN
        { <<r, g, b>> : r \in V(1), g \in V(2), b \in V(3) }
 
+\* Force(f, n): the function f on 1..n as an explicit tuple (TLC evaluates it once instead of at every access)
+Force(f, n) == SubSeq(f, 1, n)
 \* a row as the harness records it, computed by the transcription
 RowObsT(ty, ch, fix, a0, n) ==
   LET t == Types[ty]
       nb == StorageBytes(t)
       Args(k) == [c \in 1..NChan(t) |-> IF c = ch THEN a0 + k - 1 ELSE fix[c]]
-      St(k)   == StoredOfNewT(t, Args(k))                         \* the colour object
-      Raw(k)  == IntoRawAnyT(t, St(k))                            \* Raw::from(c).into_inner()
-      Back(k) == FromRawAnyT(t, Raw(k))                           \* C::from(raw)
+      st   == Force([k \in 1..n |-> StoredOfNewT(t, Args(k))], n)            \* the colour objects
+      raw  == Force([k \in 1..n |-> IntoRawAnyT(t, st[k])], n)               \* Raw::from(c).into_inner()
+      back == Force([k \in 1..n |-> FromRawAnyT(t, raw[k])], n)              \* C::from(raw)
+      chs  == Force([k \in 1..n |-> ChannelsT(t, st[k])], n)
+      bes  == Force([k \in 1..n |-> BeBytesT(t, raw[k])], n)
+      les  == Force([k \in 1..n |-> LeBytesT(t, raw[k])], n)
   IN [ty |-> ty, ch |-> ch, fix |-> fix, a0 |-> a0, n |-> n, bits |-> t.raw,
-      raw |-> [k \in 1..n |-> Raw(k)], sto |-> [k \in 1..n |-> Raw(k)],      \* mod.rs:172-174 into_storage = into().into_inner()
-      c1 |-> [k \in 1..n |-> ChannelsT(t, St(k))[1]],
-      c2 |-> IF IsRgb(t) THEN [k \in 1..n |-> ChannelsT(t, St(k))[2]] ELSE <<>>,
-      c3 |-> IF IsRgb(t) THEN [k \in 1..n |-> ChannelsT(t, St(k))[3]] ELSE <<>>,
-      be |-> [i \in 1..(n * nb) |-> BeBytesT(t, Raw((i - 1) \div nb + 1))[(i - 1) % nb + 1]],
-      le |-> [i \in 1..(n * nb) |-> LeBytesT(t, Raw((i - 1) \div nb + 1))[(i - 1) % nb + 1]],
-      beq |-> [k \in 1..n |-> IF Back(k) = St(k) THEN 1 ELSE 0],
-      braw |-> [k \in 1..n |-> IntoRawAnyT(t, Back(k))]]
+      raw |-> raw, sto |-> raw,                                             \* mod.rs:172-174 into_storage = into().into_inner()
+      c1 |-> Force([k \in 1..n |-> chs[k][1]], n),
+      c2 |-> IF IsRgb(t) THEN Force([k \in 1..n |-> chs[k][2]], n) ELSE <<>>,
+      c3 |-> IF IsRgb(t) THEN Force([k \in 1..n |-> chs[k][3]], n) ELSE <<>>,
+      be |-> Force([i \in 1..(n * nb) |-> bes[(i - 1) \div nb + 1][((i - 1) % nb) + 1]], n * nb),
+      le |-> Force([i \in 1..(n * nb) |-> les[(i - 1) \div nb + 1][((i - 1) % nb) + 1]], n * nb),
+      beq |-> Force([k \in 1..n |-> IF back[k] = st[k] THEN 1 ELSE 0], n),
+      braw |-> Force([k \in 1..n |-> IntoRawAnyT(t, back[k])], n)]
 RawRowObsT(ty, base, n) ==
   LET t == Types[ty]
-      Col(k) == FromRawAnyT(t, base + k - 1)
-      Rt(k)  == IntoRawAnyT(t, Col(k))
+      col == Force([k \in 1..n |-> FromRawAnyT(t, base + k - 1)], n)
+      rt  == Force([k \in 1..n |-> IntoRawAnyT(t, col[k])], n)
+      chs == Force([k \in 1..n |-> ChannelsT(t, col[k])], n)
   IN [ty |-> ty, base |-> base, n |-> n,
-      rt |-> [k \in 1..n |-> Rt(k)],
-      rt2 |-> [k \in 1..n |-> IntoRawAnyT(t, FromRawAnyT(t, Rt(k)))],
-      c1 |-> [k \in 1..n |-> ChannelsT(t, Col(k))[1]],
-      c2 |-> IF IsRgb(t) THEN [k \in 1..n |-> ChannelsT(t, Col(k))[2]] ELSE <<>>,
-      c3 |-> IF IsRgb(t) THEN [k \in 1..n |-> ChannelsT(t, Col(k))[3]] ELSE <<>>]
+      rt |-> rt,
+      rt2 |-> Force([k \in 1..n |-> IntoRawAnyT(t, FromRawAnyT(t, rt[k]))], n),
+      c1 |-> Force([k \in 1..n |-> chs[k][1]], n),
+      c2 |-> IF IsRgb(t) THEN Force([k \in 1..n |-> chs[k][2]], n) ELSE <<>>,
+      c3 |-> IF IsRgb(t) THEN Force([k \in 1..n |-> chs[k][3]], n) ELSE <<>>]
 
 \* rows: the last channel swept over exactly its values for every value of the other channels
 \* (= every colour of the type), and over all 256 u8 arguments on the boundary set
@@ -70,14 +76,15 @@ Init ==
   \/ \E ty \in TypeNames : s = [op |-> "table", ty |-> ty]
 
 Trip == \/ /\ s.op = "row"
-           /\ s' = [op |-> "rowobs", obs |-> RowObsT(s.ty, s.ch, s.fix, s.a0, s.n)]
+           /\ s' = [s EXCEPT !.op = "rowobs"]
         \/ /\ s.op = "rawrow"
-           /\ s' = [op |-> "rawobs", obs |-> RawRowObsT(s.ty, s.base, s.n)]
+           /\ s' = [s EXCEPT !.op = "rawobs"]
 Next == Trip
 Spec == Init /\ [][Next]_s
 
-RowOK    == s.op = "rowobs" => RowFails(s.obs).codes = {}
-RawRowOK == s.op = "rawobs" => RawRowFails(s.obs).codes = {}
+\* (the recorded row is computed where it is judged: keeping it in the state only costs fingerprinting)
+RowOK    == s.op = "rowobs" => RowFails(RowObsT(s.ty, s.ch, s.fix, s.a0, s.n)).codes = {}
+RawRowOK == s.op = "rawobs" => RawRowFails(RawRowObsT(s.ty, s.base, s.n)).codes = {}
 \* the table itself: channel fields are disjoint and adjacent from bit 0, the used bits fit the raw
 \* type, Pack and Unpack are inverse on the boundary colours, transcribed positions = documented ones
 TableOK == s.op = "table" =>
